@@ -197,7 +197,7 @@ def _check(mi):
     return rt.fin(raised == (want is not None), "check() on %s@%r: raised=%r, validator: %r" % (kind, path, raised, want))
 
 
-QUICK = [("list", 2), ("list", 5), ("strict", 1), ("fixed", 1), ("table", 1), ("mx4", 1), ("docmarks", 0)]
+QUICK = [("list", 2), ("list", 5), ("strict", 1), ("fixed", 1), ("table", 1), ("mx4", 1), ("docmarks", 0), ("cx", 0), ("cx", 1)]
 
 
 def obligations(tier, seed):
